@@ -616,6 +616,87 @@ def cli_interrupt_slice(ck):
                                     argv=rng.choice([[], ['-s', 'round-robin']])), 'cli-int')
 
 
+def cli_env_case(ck, inp, tag):
+    """real CLI in a child process: process-level conditions that must end in a proper status, never a traceback —
+    a stdout that cannot encode the names, a build log that cannot be written, a custom adapter file that is missing"""
+    import drive_cli_a as cli
+    wd = c04._mkwd(ck)
+    names = inp['names']
+    ok = [(0, b'', 1)] * 3
+    cli.write_harness(wd, dict((n, ok) for n in names))
+    builds = {0: 'echo building'} if inp.get('build') else None
+    conf = cli.base_config(wd, dict((n, {'N': 1, 'retries': 0, 'exe': 0 if i == 0 else 1}) for i, n in enumerate(names)),
+                           builds=builds)
+    if inp.get('missing_adapter_file'):
+        conf['benchmark_suites']['S' + names[0]]['gauge_adapter'] = {'MyAdapter': inp['missing_adapter_file']}
+    if inp.get('build_log_key'):
+        conf['build_log'] = inp['build_log_key']
+    obs = cli.run_cli(wd, conf, argv=inp.get('argv') or [], env_extra=inp.get('env') or {})
+    ck.impl_traces += 1
+    ck.count('real-cli:' + inp['what'])
+    st = {}
+    for a in obs['starts']:
+        st.setdefault(a[0], []).append(int(a[1]))
+    ck.case(nontrivial_key=(tag, json.dumps(inp, sort_keys=True)), sample={'real_cli': inp['what'], 'exit': obs['exit']})
+    detail = {'exit': obs['exit'], 'starts': st, 'stderr': obs['stderr_tail'][-400:], 'stdout': obs['stdout_tail'][-200:]}
+    exc = [e for e in ('UnicodeEncodeError', 'FileNotFoundError', 'PermissionError', 'NotADirectoryError')
+           if e in obs['stderr_tail'] + obs['stdout_tail']]
+    if obs['traceback']:
+        ck.oracle_fail('no_traceback', inp, detail, signature={'real_cli': True, 'what': inp['what'],
+                                                               'exception': exc[0] if exc else 'other'})
+        return
+    if obs['exit'] != inp['expect_exit']:
+        ck.oracle_fail('exit_status', inp, detail, signature={'real_cli': True, 'what': inp['what'],
+                                                              'expected': inp['expect_exit'], 'got': obs['exit']})
+        return
+    for n, want in (inp.get('expect_starts') or {}).items():
+        if st.get(n, []) != want:
+            ck.oracle_fail('containment', inp, detail, signature={'real_cli': True, 'what': inp['what'], 'behaviour_of_run': 'ok'})
+            return
+
+
+def cli_env_cases(rng, quick):
+    out = []
+    for names in (['Bé', 'B1'], ['Bench-中', 'Bü']):
+        for env in ({'PYTHONIOENCODING': 'ascii'}, {'PYTHONIOENCODING': 'latin-1'}):
+            out.append({'kind': 'cli-env', 'what': 'stdout cannot encode the names', 'names': names, 'env': env,
+                        'argv': rng.choice([[], ['-v'], ['-d']]), 'expect_exit': 0,
+                        'expect_starts': dict((n, [1]) for n in names)})
+    # the C locale without UTF-8 mode: not even the command line of the non-ASCII benchmark can be handed to the
+    # operating system; that run fails, the other one is executed
+    out.append({'kind': 'cli-env', 'what': 'command line cannot be encoded for the OS', 'names': ['Bé', 'B1'],
+                'env': {'PYTHONIOENCODING': '', 'LC_ALL': 'C', 'PYTHONUTF8': '0', 'PYTHONCOERCECLOCALE': '0'},
+                'expect_exit': 1, 'expect_starts': {'B1': [1]}})
+    for how in ('-b', 'key'):
+        for target in ('/nonexistent/x/build.log', '/dev/null/build.log'):
+            c = {'kind': 'cli-env', 'what': 'build log cannot be written', 'names': ['B0', 'B1'], 'build': True,
+                 'expect_exit': 3}
+            if how == '-b':
+                c['argv'] = ['-b', target]
+            else:
+                c['build_log_key'] = target
+            out.append(c)
+    out.append({'kind': 'cli-env', 'what': 'build log cannot be written', 'names': ['B0'], 'argv': ['-b', '/nonexistent/x/b.log'],
+                'expect_exit': 0, 'expect_starts': {'B0': [1]}})     # no build configured: nothing to log
+    for f in ('./no_such.py', 'no/such/dir/adapter.py'):
+        out.append({'kind': 'cli-env', 'what': 'custom adapter file is missing', 'names': ['B0', 'B1'],
+                    'missing_adapter_file': f, 'expect_exit': 1, 'expect_starts': {'B0': [], 'B1': [1]}})
+        out.append({'kind': 'cli-env', 'what': 'custom adapter file is missing', 'names': ['B0', 'B1'],
+                    'missing_adapter_file': f, 'argv': ['-p'], 'expect_exit': 0})
+    if quick:
+        keep = {}
+        rng.shuffle(out)
+        for c in out:
+            keep.setdefault((c['what'], c['expect_exit']), []).append(c)
+        out = [c for v in keep.values() for c in v[:2]]
+    return out
+
+
+def cli_env_slice(ck):
+    for c in cli_env_cases(ck.rng, ck.tier == 'quick'):
+        cli_env_case(ck, c, 'cli-env')
+
+
 def cli_bytes_slice(ck):
     import drive_cli_a as cli
     rng = ck.rng
@@ -636,7 +717,9 @@ def load_corpus(ck):
 
 
 def run_input(ck, inp, tag):
-    if inp.get('kind') == 'cli-interrupt':
+    if inp.get('kind') == 'cli-env':
+        cli_env_case(ck, inp, tag)
+    elif inp.get('kind') == 'cli-interrupt':
         cli_interrupt_case(ck, inp, tag)
     elif inp.get('kind') == 'cli-bytes':
         cli_bytes_case(ck, inp, tag)
@@ -681,7 +764,7 @@ def run(ck):
             run_scenario(ck, scn, scripts, sched, choices, rng.random() < 0.12, 'enum%d' % n)
     ck.exhaustive = True
     # sampled larger assignments
-    for _ in range(70 if quick else 1500):
+    for _ in range(40 if quick else 1500):
         n = rng.randint(4, 5)
         assign = [rng.choice(BEHAVIOURS) for _ in range(n)]
         share = [rng.randrange(3) for _ in range(n)] if rng.random() < 0.6 else None
@@ -709,6 +792,7 @@ def run(ck):
 
 
     cli_bytes_slice(ck)
+    cli_env_slice(ck)
     cli_interrupt_slice(ck)
     c04.queue_of(ck).flush()
     sigs = {}
